@@ -463,6 +463,7 @@ func resolveLinks(ents []tEntry) map[string][]byte {
 //	extra:<pos>             one unrelated file (README.txt) inserted at position pos of the non-directory entries
 //	extrablob:<pos>         one unrelated, correctly named blob inserted at position pos
 //	link:<form>:<i|all>[+late]   blob i (index among blob entries) or all blobs replaced by a link to a second copy
+//	linkperm:<form>:<i>:<k> blob i replaced by a link, then every entry order (hard links that would precede their target are skipped as malformed)
 func shapeArchive(ents []tEntry, shape string) ([]byte, error) {
 	dirs, files := split(ents)
 	arg := ""
@@ -556,8 +557,51 @@ func shapeArchive(ents []tEntry, shape string) ([]byte, error) {
 		}
 		// links carry no directory entries of their own: keep the original ones in front
 		return writeTar(join(dirs, applyLink(files, which, sp[0], late)), false), nil
+	case "linkperm":
+		// linkperm:<form>:<i>:<k>  blob i replaced by a link (copy first), then the k-th permutation of all non-directory entries
+		sp := strings.Split(arg, ":")
+		if len(sp) != 3 {
+			return nil, fmt.Errorf("bad linkperm shape %q", shape)
+		}
+		bi := blobIdx(files)
+		i, err1 := strconv.Atoi(sp[1])
+		k, err2 := strconv.Atoi(sp[2])
+		if err1 != nil || err2 != nil || i < 0 || i >= len(bi) {
+			return nil, fmt.Errorf("bad linkperm shape %q", shape)
+		}
+		fl := applyLink(files, []int{bi[i]}, sp[0], false)
+		if k < 0 || k >= factorial(len(fl)) {
+			return nil, fmt.Errorf("bad permutation in %q", shape)
+		}
+		pm := nthPerm(len(fl), k)
+		o := make([]tEntry, len(fl))
+		for a, b := range pm {
+			o[a] = fl[b]
+		}
+		if !hardLinksFollow(o) {
+			return nil, errMalformedShape
+		}
+		return writeTar(join(dirs, o), false), nil
 	}
 	return nil, fmt.Errorf("unknown shape %q", shape)
+}
+
+var errMalformedShape = fmt.Errorf("shape puts a hard link before its target")
+
+// hardLinksFollow reports whether every hard link comes after the entry it names.
+func hardLinksFollow(ents []tEntry) bool {
+	pos := map[string]int{}
+	for i, e := range ents {
+		pos[path.Clean(e.Name)] = i
+	}
+	for i, e := range ents {
+		if e.Type == tar.TypeLink {
+			if j, ok := pos[path.Clean(e.Link)]; !ok || j > i {
+				return false
+			}
+		}
+	}
+	return true
 }
 
 // sameLayout is the self-check of a shaped archive: following links the POSIX/tar way, every name of
